@@ -275,6 +275,18 @@ class Runner:
         loop.settle()
         return self._collect()
 
+    def cur_seq(self):
+        """The packet sequence number a matching ACK must carry now.  Read from the protocol object when it exposes it;
+        otherwise derived from the wire alone (the number stamped on the last data frame written)."""
+        try:
+            return int(self.proto._pack_seq)
+        except AttributeError:
+            for b in reversed(self.wire.log):
+                b = bytes(b)
+                if not (len(b) == 7 and b[5] & 1):
+                    return (b[5] >> 2) & 3
+            return 0
+
     def listeners(self):
         # one-shot waiters only: callbacks registered by ("listen", kind) stay registered by design
         from zigpy_zboss.utils import OneShotResponseListener
@@ -289,7 +301,7 @@ def run_scenario(events):
             out.append(r.step(ev))
         nl = r.listeners()
         run_scenario.last_wtimes = list(r.wtimes)
-        return out, nl, r.proto._pack_seq
+        return out, nl, r.cur_seq()
     finally:
         r.close()
 
